@@ -110,21 +110,31 @@ def run(ctx):
     if f:
         cs = resalg.cases(ctx, f)
         P = "<F as syn::parse::Parser>::parse2(fn syn::punctuated::Punctuated::<T, P>::parse_terminated, a1)"
-        okv = [v for c, v in cs if c == ["is_ok(%s)=True" % P]]
-        erv = [v for c, v in cs if c == ["is_ok(%s)=False" % P]]
-        ctx.ob("C15.F.list-is-parse-terminated", f.key, "Punctuated::<NestedMeta, Comma>::parse_terminated.parse2(tokens)", len(cs) == 2 and len(okv) == 1 and erv == ["core::result::Result::Err{(%s as Err).0}" % P], "%s" % [(c, v[:200]) for c, v in cs])
+        okv = [v for c, v in cs if "is_ok(%s)=True" % P in c]
+        erv = [v for c, v in cs if "is_ok(%s)=False" % P in c]
+        ctx.ob("C15.F.list-is-parse-terminated", f.key, "Punctuated::<NestedMeta, Comma>::parse_terminated.parse2(tokens)", len(cs) == 2 and len(okv) == 1 and erv in (["core::result::Result::Err{(%s as Err).0}" % P], ["core::result::Result::Err{From::from((%s as Err).0)}" % P]), "%s" % [(c, v[:200]) for c, v in cs])
         want = "core::result::Result::Ok{core::iter::traits::iterator::Iterator::collect(<syn::punctuated::Punctuated<T, P> as core::iter::traits::collect::IntoIterator>::into_iter((%s as Ok).0))}" % P
-        ctx.ob("C15.F.list-keeps-order", f.key, "punctuated.into_iter().collect()", okv == [want], "%s" % [v[:300] for v in okv])
+        ok_order = okv == [want]
+        if not ok_order and len(okv) == 1:
+            # the same list built by a loop that pushes every item of the parsed sequence, in order
+            hits = [h for h in ctx.per_element(f, r"^alloc::vec::Vec::<T, A>::push$") if h["form"] == "loop" and h["owner"] is f]
+            if len(hits) == 1:
+                src = hits[0]["source"]
+                recv = ctx.expr(f, hits[0]["t"]["args"][0])
+                elem = ctx.expr(f, hits[0]["t"]["args"][1])
+                ok_order = "into_iter((%s as Ok).0)" % P in src.replace("<syn::punctuated::Punctuated<T, P> as core::iter::traits::collect::IntoIterator>::", "") and okv[0] == "core::result::Result::Ok{%s}" % recv and ("Iterator>::next(" in elem or "as Some).0" in elem)
+        ctx.ob("C15.F.list-keeps-order", f.key, "punctuated.into_iter().collect()", ok_order, "%s" % [v[:300] for v in okv])
     f = ctx.fn("<darling_core::ast::data::NestedMeta as quote::to_tokens::ToTokens>::to_tokens")
     if f:
-        calls = [(ctx.pc_strs(f, b), mir.callee_info(t).get("self_ty"), ctx.expr(f, t["args"][0])) for b, t in ctx.find_calls(f, r"ToTokens>::to_tokens$|printing::<impl quote::to_tokens::ToTokens for ")]
         m = {}
-        for pc, ty, arg in calls:
-            for d in pc:
-                for a in d:
-                    mm = re.match(r"^discr\(self\)=(\w+)$", a)
-                    if mm:
-                        m[mm.group(1)] = arg
+        for b, t in ctx.find_calls(f, r"ToTokens>::to_tokens$|printing::<impl quote::to_tokens::ToTokens for |ToTokens::to_tokens$"):
+            # what is printed, per variant: the call may stand in each arm, or once after a match that
+            # picked the payload
+            for conds, v in resalg.expr_cases(ctx, f, t["args"][0]):
+                for d in ctx.pc_strs(f, b) or [set()]:
+                    vs = {mm.group(1) for a in list(d) + list(conds) for mm in [re.match(r"^discr\(self\)=(\w+)$", a)] if mm}
+                    if len(vs) == 1:
+                        m[vs.pop()] = v
         ctx.ob("C15.E.print-delegates-per-variant", f.key, "Meta → meta.to_tokens, Lit → lit.to_tokens", m == {"Meta": "(self as Meta).0", "Lit": "(self as Lit).0"}, "%s" % m)
 
     # ---------------------------------------------------------------- default dispatchers
